@@ -31,13 +31,51 @@ func hnswFn(w *World, role string) *ssa.Function {
 			if sig.Params().Len() == 2 && sig.Results().Len() == 1 && tstr(sig.Results().At(0).Type(), nil) == "[]uint32" {
 				return fn
 			}
-		case "prune": // (uint32, int, int)
-			if sig.Params().Len() == 3 && sig.Results().Len() == 0 && tstr(sig.Params().At(0).Type(), nil) == "uint32" {
-				return fn
+		case "prune": // (uint32 | *hnswNode, int, int) in any order: no result, two int parameters, one node
+			if sig.Params().Len() == 3 && sig.Results().Len() == 0 {
+				ints, nodes := 0, 0
+				for i := 0; i < 3; i++ {
+					t := tstr(sig.Params().At(i).Type(), qual)
+					switch {
+					case t == "int":
+						ints++
+					case t == "uint32" || strings.HasSuffix(t, "hnswNode"):
+						nodes++
+					}
+				}
+				if ints == 2 && nodes == 1 {
+					return fn
+				}
 			}
 		}
 	}
 	return nil
+}
+
+// pruneBoundParam names (canonically) the int parameter of the pruning helper that is not used to index an edge table:
+// the bound M (the other one is the layer).
+func pruneBoundParam(fn *ssa.Function) string {
+	layer := map[*ssa.Parameter]bool{}
+	allInstrs(fn, func(in ssa.Instruction) {
+		if ia, ok := in.(*ssa.IndexAddr); ok {
+			if p, isP := ia.Index.(*ssa.Parameter); isP {
+				layer[p] = true
+			}
+		}
+	})
+	out := ""
+	for i, p := range fn.Params {
+		if bt, ok := p.Type().Underlying().(*types.Basic); ok && bt.Kind() == types.Int && !layer[p] {
+			if out != "" {
+				return "P3"
+			}
+			out = fmt.Sprintf("P%d", i)
+		}
+	}
+	if out == "" {
+		return "P3"
+	}
+	return out
 }
 
 func ruleHNSWLinkEntry(r *Run, p string) {
@@ -519,12 +557,13 @@ func ruleHNSWOrder(r *Run, p string) {
 	if fn := hnswFn(w, "prune"); fn != nil {
 		c := NewCanon(w)
 		ok := false
+		pM := pruneBoundParam(fn)
 		allInstrs(fn, func(in ssa.Instruction) {
 			if mk, ok2 := in.(*ssa.MakeSlice); ok2 && tstr(mk.Type(), nil) == "[]uint32" {
 				if call, isCall := mk.Len.(*ssa.Call); isCall {
 					if b, isB := call.Call.Value.(*ssa.Builtin); isB && b.Name() == "min" && len(call.Call.Args) == 2 {
 						s0, s1 := c.S(call.Call.Args[0]), c.S(call.Call.Args[1])
-						if (s0 == "P3" && strings.HasPrefix(s1, "len(")) || (s1 == "P3" && strings.HasPrefix(s0, "len(")) {
+						if (s0 == pM && strings.HasPrefix(s1, "len(")) || (s1 == pM && strings.HasPrefix(s0, "len(")) {
 							ok = true
 						}
 					}
@@ -533,7 +572,7 @@ func ruleHNSWOrder(r *Run, p string) {
 					var hasM, hasLen bool
 					for _, e := range ph.Edges {
 						s := c.S(e)
-						if s == "P3" {
+						if s == pM {
 							hasM = true
 						}
 						if strings.HasPrefix(s, "len(") {
@@ -1170,7 +1209,9 @@ func rulePQ(r *Run, p string) {
 						return
 					}
 					if cmp.R == K || strings.HasPrefix(cmp.R, "("+K+"*c(") {
-						if ret, ok := iff.Block().Succs[0].Instrs[len(iff.Block().Succs[0].Instrs)-1].(*ssa.Return); ok && classifyErr(ret) == ErrNonNil {
+						// the rejection: every way on from the true branch ends in an error return (directly, or through
+						// the result variable of an inlined validation helper)
+						if allPathsFail(iff.Block().Succs[0]) {
 							guarded = true
 						}
 					}
